@@ -1,0 +1,13 @@
+//go:build verif
+
+package logic
+
+// VerifCleanupGate, when set, is called by the delayed hls cleanup (ServerManager.CleanupHlsIfNeeded) after it has
+// decided to remove the directory of `streamName` and before it removes it.
+var VerifCleanupGate func(streamName string)
+
+func verifCleanupGate(streamName string) {
+	if f := VerifCleanupGate; f != nil {
+		f(streamName)
+	}
+}
